@@ -51,6 +51,11 @@ def _check(S, m, d, h):
         return cls, ("recover", Q, rec)
     if pub[0] != "ok" or L.to_model(pub[1]) != Q:
         return cls, ("privtopub", Q, pub)
+    # after this signature was made: the same (v, r) with s = 0 mod N must still be refused
+    for s0 in (0, n):
+        z0 = L.call(S.ecdsa_raw_recover, h, (v, r, s0))
+        if z0 != ("raise", "ValueError"):
+            return cls, ("recover-accepts-s=0-after-sign", "ValueError", z0)
     other = L.call(S.ecdsa_raw_recover, h, (55 - v, r, s))
     if other[0] == "ok" and L.to_model(other[1]) == Q:
         return cls, ("other-v-recovers-same-key", "different point or error", other)
@@ -127,6 +132,51 @@ def task_full(a, env):
     return r
 
 
+def mut_case(cfg, d, hs):
+    """one history with bytearray arguments overwritten in place between calls: every signature must
+    be the model signature of the bytes present at the time of the call"""
+    S, m = L.get(cfg)
+    out = []
+    hb = bytearray(hs[0])
+    kb = bytearray(d.to_bytes(32, "big"))
+    for step, h in enumerate(hs):
+        hb[:] = h
+        z = int.from_bytes(bytes(hb), "big")
+        want = m.sign_with_k(d, z, ecdsa.nonce(bytes(hb), bytes(kb)))
+        if want is None or want[1] % m.n == 0 or want[2] == 0 or want[1] >= m.n:
+            continue
+        got = L.call(S.ecdsa_raw_sign, hb, kb)
+        out.append((step, ("ok", want), got))
+    return out
+
+
+def task_mutated(a, env):
+    r = R("bytearray-arguments-overwritten-between-calls")
+    for cfg in a["cfgs"]:
+        S, m = L.get(cfg)
+        for d in a["ds"]:
+            if not 1 <= d < m.n:
+                continue
+            hs = [bytes([i + 1]) * 32 for i in range(3)] + [b"\x01" * 32]
+            for step, exp, got in mut_case(cfg, d, [h.hex() and h for h in hs]):
+                r.ev += 1
+                r.dk.add((str(cfg), d, step))
+                if exp != got:
+                    r.viol("C06:%s:stale-after-in-place-mutation" % ("full" if cfg == "full" else "tiny"), ME + ":replay_mut",
+                           {"cfg": cfg, "d": hex(d)}, exp, got, note="call %d" % step)
+                    break
+    r.sample({"sequence": "sign(bytearray h, bytearray key); h[:] = other; sign again; ..."})
+    return r
+
+
+def replay_mut(a):
+    hs = [bytes([i + 1]) * 32 for i in range(3)] + [b"\x01" * 32]
+    for step, exp, got in mut_case(a["cfg"], int(a["d"], 16), hs):
+        if exp != got:
+            return {"call": step, "expected": exp, "observed": got}
+    return None
+
+
 def replay(a):
     S, m = L.get(a["cfg"])
     cls, bad = _check(S, m, int(a["d"], 16), bytes.fromhex(a["h"]))
@@ -157,4 +207,5 @@ def run(ctx):
             tasks.append(("tiny", {"cfg": list(c), "d_lo": lo, "d_hi": min(N, lo + chunk)}))
     step = 12 if ctx.quick else 25
     tasks += [("full", {"lo": i, "step": step}) for i in range(step)]
+    tasks.append(("mutated", {"cfgs": ["full", list(cur[0]), list(cur[2])], "ds": [1, 5, 12345 % 11 + 2]}))
     ctx.pmap(ME, tasks)
